@@ -11,21 +11,21 @@ if [ -n "$(git status --porcelain --untracked-files=no)" ]; then echo "repo dirt
 cleanup() { git -C "$REPO" checkout -q -- . ; rm -rf "$REPO"/crates/$CRATE/tests/seeded_demo.rs; rmdir "$REPO"/crates/$CRATE/tests 2>/dev/null; }
 trap cleanup EXIT
 git apply "$SD/patch.diff" || { echo "patch does not apply"; exit 2; }
-cargo test --workspace --no-fail-fast --offline >/tmp/seed_suite.log 2>&1 < /dev/null
-SUITE_FAIL=$(grep -cE "^test .* FAILED$" /tmp/seed_suite.log)
-grep -q "error: could not compile" /tmp/seed_suite.log && SUITE_FAIL=compile_error
+cargo test --workspace --no-fail-fast --offline >${SEED_TMP:-/tmp}/seed_suite.log 2>&1 < /dev/null
+SUITE_FAIL=$(grep -cE "^test .* FAILED$" ${SEED_TMP:-/tmp}/seed_suite.log)
+grep -q "error: could not compile" ${SEED_TMP:-/tmp}/seed_suite.log && SUITE_FAIL=compile_error
 mkdir -p crates/$CRATE/tests; cp "$SD/demo.rs" crates/$CRATE/tests/seeded_demo.rs
-cargo test --offline -p $CRATE ${SEED_FEATURES:-} --test seeded_demo >/tmp/seed_demo_with.log 2>&1 < /dev/null
-DEMO_FAIL_WITH=$(grep -E "^test result" /tmp/seed_demo_with.log | head -1)
+cargo test --offline -p $CRATE ${SEED_FEATURES:-} --test seeded_demo >${SEED_TMP:-/tmp}/seed_demo_with.log 2>&1 < /dev/null
+DEMO_FAIL_WITH=$(grep -E "^test result" ${SEED_TMP:-/tmp}/seed_demo_with.log | head -1)
 RESULTS=""
 EVSAVE="$(mktemp -d)"; cp -a "$VERIF"/evidence/. "$EVSAVE"/   # seeded trials must not leave their evidence behind
 for P in "$@"; do
-  ( cd "$VERIF" && ./check $P --tier quick > /tmp/seed_check_$P.log 2>&1 ); RC=$?
+  ( cd "$VERIF" && ./check $P --tier quick > ${SEED_TMP:-/tmp}/seed_check_$P.log 2>&1 ); RC=$?
   RESULTS="$RESULTS $P=exit$RC"
 done
 cp -a "$EVSAVE"/. "$VERIF"/evidence/; rm -rf "$EVSAVE"
 git checkout -q -- .
 mkdir -p crates/$CRATE/tests; cp "$SD/demo.rs" crates/$CRATE/tests/seeded_demo.rs
-cargo test --offline -p $CRATE ${SEED_FEATURES:-} --test seeded_demo >/tmp/seed_demo_without.log 2>&1 < /dev/null
-DEMO_WITHOUT=$(grep -E "^test result" /tmp/seed_demo_without.log | head -1)
+cargo test --offline -p $CRATE ${SEED_FEATURES:-} --test seeded_demo >${SEED_TMP:-/tmp}/seed_demo_without.log 2>&1 < /dev/null
+DEMO_WITHOUT=$(grep -E "^test result" ${SEED_TMP:-/tmp}/seed_demo_without.log | head -1)
 echo "SEED $(basename $(dirname $SD)) suite_failures_with_patch=$SUITE_FAIL demo_with_patch=[$DEMO_FAIL_WITH] demo_without_patch=[$DEMO_WITHOUT] checks:$RESULTS"
